@@ -50,7 +50,14 @@ C12 == UNION {[kind : {"loss_struct"}, family : {"C12"}, lkind : {lk}, batched :
                ot : BOOLEAN, hetero : {"none", "k1", "k3map"}, obsk : BOOLEAN, b : {2, 4}]
               : lk \in LKinds}
 C12ok(c) == (c.hetero # "none" => c.batched \subseteq {1, 2} /\ ~c.obsk) /\ (c.obsk => 3 \notin c.batched)
+C13 == [kind : {"loss_struct"}, family : {"C13"}, lkind : LKinds, neq : 1..3, nunk : 1..3, naming : {"same", "different", "overlap"},
+        wform : {"scalar", "dict"}, icpat : {"none", "first", "all"}, obspat : {"none", "first", "all"}, bnd : BOOLEAN, pbatch : BOOLEAN]
+C13ok(c) == /\ (c.naming = "same" => c.neq = c.nunk)
+            /\ (c.lkind = "statio" => c.icpat = "none")
+            /\ (c.lkind = "ode" => ~c.bnd)
+            /\ (c.pbatch => c.obspat = "none" /\ ~c.bnd)
 Space == CASE Family = "C03" -> {c \in C03 : C03ok(c)}
+           [] Family = "C13" -> {c \in C13 : C13ok(c)}
            [] Family = "C04" -> {c \in C04 : C04ok(c)}
            [] Family = "C05" -> {c \in C05 : C05ok(c)}
            [] Family = "C12" -> {c \in C12 : C12ok(c)}
